@@ -34,6 +34,7 @@ type hsrHist struct {
 	ops      []any
 	feat     map[string]bool
 	tag      uint32
+	ridx     uint32
 	maxQueue int
 }
 
@@ -71,8 +72,8 @@ func (h *hsrHist) record(opLit string, desc any) {
 			}
 			ol = append(ol, hx.App("RData", hx.N(tag)))
 			h.feat["release"] = true
-		case nebula.VerifHSOutClose:
-			// the close-tunnel to a wrong responder is the subject of C09
+		case nebula.VerifHSOutClose, nebula.VerifHSOutStage2:
+			// the close-tunnel to a wrong responder and the responder's stage-2 reply are the subject of C09 / C10
 		default:
 			ol = append(ol, hx.App("RData", hx.N(nebula.VerifHSUnknown)))
 		}
@@ -160,11 +161,72 @@ func (h *hsrHist) opWrong(a uint64, v uint64) {
 	h.record(hx.App("RWrong", hx.N(a), hx.N(v)), []any{"wrong", a, v})
 }
 
+// queueAt arms the interleaving: inside the node's next log call with message msg, an inside packet for a goes
+// through GetOrHandshake + cachePacket (what the tun reader does), on the goroutine that is inside
+// continueHandshake / beginHandshake at that moment.
+func (h *hsrHist) queueAt(msg string, a uint64, port uint16) string {
+	h.tag++
+	pk := h.w.DataPacket(a, port, h.tag)
+	h.w.AtLog(msg, func() {
+		if ready := h.w.Cache(a, pk); ready {
+			panic("verif hsretry: a tunnel was ready inside the interleaving point")
+		}
+	})
+	return hx.App("mkPkt", hx.N(uint64(h.tag)), hx.N(uint64(port)))
+}
+
+// opCompleteQ: stage 2 from the right host with a packet queued at the "Handshake message received" log line of
+// continueHandshake (after the peer checks, before Complete).
+func (h *hsrHist) opCompleteQ(a uint64, port uint16) {
+	lit := h.queueAt(nebula.VerifHSLogReceived, a, port)
+	if id, ok := h.ready(a); ok {
+		h.w.DeliverStage2(id, h.right[a], 77, uint64(h.now), 1)
+		if !h.w.LogHookFired() {
+			panic("verif hsretry: the interleaving point was not reached")
+		}
+		h.w.DropMainTunnels()
+		h.feat["complete"] = true
+		h.feat["interleave"] = true
+	}
+	h.w.LogHookFired()
+	h.record(hx.App("RCompleteQ", hx.N(a), lit), []any{"complete-q", a, h.tag, port})
+}
+
+// opWrongQ: stage 2 from a wrong host with a packet queued at the "Incorrect host responded" log line.
+func (h *hsrHist) opWrongQ(a, v uint64, port uint16) {
+	lit := h.queueAt(nebula.VerifHSLogIncorrectHost, a, port)
+	if id, ok := h.ready(a); ok {
+		h.w.DeliverStage2(id, h.wrong, 78, uint64(h.now), v)
+		if !h.w.LogHookFired() {
+			panic("verif hsretry: the interleaving point was not reached")
+		}
+		h.feat["wrong"] = true
+		h.feat["interleave"] = true
+	}
+	h.w.LogHookFired()
+	h.record(hx.App("RWrongQ", hx.N(a), hx.N(v), lit), []any{"wrong-q", a, v, h.tag, port})
+}
+
+// opRespQ: a stage 1 FROM the peer certified for a (this node is responder) with a packet for a queued at the
+// "Handshake message received" log line of beginHandshake (before CheckAndComplete).
+func (h *hsrHist) opRespQ(a uint64, port uint16) {
+	lit := h.queueAt(nebula.VerifHSLogReceived, a, port)
+	h.ridx++
+	pk := h.w.NewStage1(h.right[a], 1000+h.ridx, uint64(h.now)+uint64(h.ridx))
+	h.w.DeliverStage1Anon(pk, 1)
+	if !h.w.LogHookFired() {
+		panic("verif hsretry: the interleaving point was not reached")
+	}
+	h.w.DropMainTunnels()
+	h.feat["interleave"] = true
+	h.record(hx.App("RRespQ", hx.N(a), lit), []any{"resp-q", a, h.tag, port})
+}
+
 func (h *hsrHist) emit(cw *hx.CaseWriter, label string) {
 	kind := label
 	if kind == "" {
 		var fs []string
-		for _, f := range []string{"giveup", "complete", "wrong", "trigger", "release", "full"} {
+		for _, f := range []string{"giveup", "complete", "wrong", "trigger", "release", "full", "interleave"} {
 			if h.feat[f] {
 				fs = append(fs, f)
 			}
@@ -242,8 +304,14 @@ func (h *hsrHist) randomOp() {
 		h.opSetRemotes(a, h.remotes())
 	case r < 88:
 		h.opTrigger(a)
-	case r < 94:
+	case r < 91:
 		h.opComplete(a)
+	case r < 94:
+		h.opCompleteQ(a, h.port())
+	case r < 96:
+		h.opWrongQ(a, uint64(1+h.c.Intn(5)), h.port())
+	case r < 97:
+		h.opRespQ(a, h.port())
 	default:
 		h.opWrong(a, uint64(1+h.c.Intn(5)))
 	}
@@ -338,6 +406,48 @@ func hsrCorpus(c *hx.Ctx, cw *hx.CaseWriter) {
 		h.opTick(int64(20 * time.Millisecond))
 		h.opTick(int64(20 * time.Millisecond))
 		h.emit(cw, "corpus-witness-stale-entry")
+	}
+	// 4c. the tun reader interleaved with the UDP reader at every log line between the receipt of a handshake message
+	//     and Complete / the restart / CheckAndComplete, with 0, 1, 99 and 100 packets already queued (the interleaved
+	//     packet is stored, or - queue full - dropped) and ports inside and outside the rule set
+	for _, n := range []int{0, 1, 99, 100} {
+		for _, port := range []uint16{1000, 53} {
+			prep := func() *hsrHist {
+				h := newHsrHist(c, 5, 100*time.Millisecond, []uint16{1000, 2000})
+				h.opTick(0)
+				h.opStart(3, []uint64{1})
+				for i := 0; i < n; i++ {
+					h.opCache(3, []uint16{1000, 1001, 2000}[i%3])
+				}
+				h.opTick(int64(100 * time.Millisecond))
+				h.opTick(int64(100 * time.Millisecond))
+				return h
+			}
+			{
+				h := prep()
+				h.opCompleteQ(3, port)
+				h.opTick(int64(300 * time.Millisecond))
+				h.emit(cw, "interleave-at-continue-received")
+			}
+			{
+				h := prep()
+				h.opWrongQ(3, 2, port)
+				h.opTick(int64(100 * time.Millisecond))
+				h.opTick(int64(100 * time.Millisecond))
+				h.opCompleteQ(3, port)
+				h.emit(cw, "interleave-at-incorrect-host")
+			}
+			{
+				h := prep()
+				h.opRespQ(3, port) // the pending initiator handshake keeps the packet
+				h.opRespQ(4, port) // no handshake pending for 4: the packet starts one
+				h.opTick(int64(100 * time.Millisecond))
+				h.opTick(int64(100 * time.Millisecond))
+				h.opComplete(3)
+				h.opComplete(4)
+				h.emit(cw, "interleave-at-begin-received")
+			}
+		}
 	}
 	// 5. irregular clock: sub-interval ticks, a gap longer than a revolution, interval not dividing the gaps
 	{
